@@ -103,6 +103,8 @@ def run(run, tier, replay=None):
         else:
             run.violation("oracle", {"fn": fn, "input": s, "prefix": pfx, "impl": got, "note": "inside the proved domain (guard true) yet not a valid non-keyword identifier"})
     scopes_corr(run, tier, scope_replay)
+    enum_scope_corr(run, tier, [c for c in scope_replay if c.get("scope") in ("decls", "enumdoc")] if scope_replay is not None else None)
+    tree_oracle(run, tier, [c for c in scope_replay if c.get("scope") == "tree"] if scope_replay is not None else None)
     procprops_corr(run, tier, pp_replay)
     if not replay:
         scopes(run, tier)
@@ -447,7 +449,7 @@ def _value_variant(rng, base):
             return list(base)
         if r < 0.8:
             return [("VALUE_%d" % v) if v >= 0 else ("VALUE_NEGATIVE_%d" % -v) for v in base]
-        return [v + rng.choice([0, 0, 1]) for v in base]
+        return [v + 10 * rng.choice([0, 0, 1]) for v in base]
     out = []
     mode = rng.choice(["same", "upper", "cap", "delim", "mixed", "rev"])
     for v in base:
@@ -560,7 +562,7 @@ def gen_enum_doc(rng):
         words = rng.choice(CLS_BASES)
         holder = (words[0].capitalize(), words[1], _value_variant(rng, rng.choice(VALUE_BASES)))
         if holder[0] not in comps:
-            comps[holder[0]] = {"type": "object", "description": "holder", "properties": {holder[1]: {"enum": list(holder[2])}}}
+            comps[holder[0]] = {"type": "object", "description": "holder", "properties": {holder[1]: {"enum": list(holder[2]), "description": "inline"}}}
         else:
             holder = None
     return comps, holder
@@ -596,7 +598,7 @@ def enum_scope_corr(run, tier, replay_cases=None):
         for _ in range(n):
             dcases.append(gen_decls(rng))
         docs += [{"FooBar": {"enum": ["on", "off"], "description": "0"},
-                  "Foo": {"type": "object", "description": "holder", "properties": {"bar": {"enum": ["ON", "OFF"]}}}},
+                  "Foo": {"type": "object", "description": "holder", "properties": {"bar": {"enum": ["ON", "OFF"], "description": "inline"}}}},
                  {"FooBar": {"enum": [1, 2], "description": "0"}, "foo_bar": {"enum": ["VALUE_1", "VALUE_2"], "description": "1"}}]
         for _ in range(m):
             docs.append(gen_enum_doc(rng)[0])
@@ -634,7 +636,7 @@ def enum_scope_corr(run, tier, replay_cases=None):
                 declared.append((sch["enum"], ("component", nm), sch.get("description")))
             for pn, ps in (sch.get("properties") or {}).items():
                 if "enum" in ps:
-                    declared.append((ps["enum"], ("inline", nm, pn), sch.get("description")))
+                    declared.append((ps["enum"], ("inline", nm, pn), ps.get("description")))
         reported = {d for d, _ in errs}
         _enum_tables_oracle(run, case, [(vs, who) for vs, who, desc in declared if desc not in reported], enums, [], declared_all=[vs for vs, _, _ in declared])
         # correspondence for documents without a holder: components in document order are exactly the fold of Scopes.model_decls
@@ -744,9 +746,8 @@ def tree_oracle(run, tier, replay_cases=None):
                 comps.add(("/".join(parts[:j]), part[:-3] if j == len(parts) - 1 else part))
         for where, comp in sorted(comps):
             if not comp.isidentifier() or keyword.iskeyword(comp):
-                src = [nm for nm in [e for v in want_tags.values() for e in v] + raw_tags + classes]
-                gapped = [nm for nm in src if any((("a" + ch).isidentifier() is False) and __import__("re").fullmatch(r"\w", ch) for ch in nm)]
-                if gapped and any(ch in comp for nm in gapped for ch in nm if not ("a" + ch).isidentifier()):
+                import re as _re
+                if any(_re.fullmatch(r"\w", ch) and not ("a" + ch).isidentifier() for ch in comp):
                     if run.known_finding("xid_gap", f"generated path component {comp!r} under {where!r} is not an identifier (\\w character outside XID_Continue)"):
                         continue
                 run.violation("oracle", {"scope_case": case, "component": comp, "under": where, "files": files[:40],
